@@ -522,14 +522,67 @@ void run(Src &src, Case &c)
         // a second generated document as import target (valid, with its own small edit chance)
         GenOpts lo;
         lo.imports = src.flip(30);
+        // the library document also comes in CellML 1.1 / 1.0 (what a permissive importer converts, reporting as it goes)
+        const uint32_t lv = editTapes[nEdits][4] % 10;
+        lo.v1x = lv < 5;
+        if (lv >= 3 && lv < 5) {
+            lo.imports = false;
+        }
         ModelSpec lib = genValidModel(src, lo);
+        // give the library the entities the main document asks for, so that resolution gets past "not found"
+        {
+            std::vector<size_t> tops;
+            for (size_t i = 0; i < lib.comps.size(); ++i) {
+                if (lib.comps[i].parent < 0 && lib.comps[i].import < 0) {
+                    tops.push_back(i);
+                }
+            }
+            size_t nextComp = 0, nextUnits = 0;
+            auto compNameTaken = [&](const std::string &n) { for (const auto &k : lib.comps) { if (k.name == n) { return true; } } return false; };
+            auto unitsNameTaken = [&](const std::string &n) { for (const auto &k : lib.units) { if (k.name == n) { return true; } } return false; };
+            for (const auto &k : spec.comps) {
+                if (k.import >= 0 && nextComp < tops.size() && !k.importRef.empty() && !compNameTaken(k.importRef)) {
+                    lib.comps[tops[nextComp++]].name = k.importRef;
+                }
+            }
+            for (const auto &k : spec.units) {
+                if (k.import >= 0 && !k.importRef.empty() && !unitsNameTaken(k.importRef)) {
+                    while (nextUnits < lib.units.size() && lib.units[nextUnits].import >= 0) {
+                        ++nextUnits;
+                    }
+                    if (nextUnits < lib.units.size()) {
+                        const std::string old = lib.units[nextUnits].name;
+                        lib.units[nextUnits].name = k.importRef;
+                        for (auto &u : lib.units) {
+                            for (auto &ch : u.units) {
+                                if (ch.ref == old) {
+                                    ch.ref = k.importRef;
+                                }
+                            }
+                        }
+                        for (auto &lc : lib.comps) {
+                            for (auto &v : lc.vars) {
+                                if (v.units == old) {
+                                    v.units = k.importRef;
+                                }
+                            }
+                        }
+                        ++nextUnits;
+                    }
+                }
+            }
+        }
         XmlOptions lx;
+        lx.version = lo.v1x ? (lv < 3 ? 11 : 10) : 20;
         cfg.extraDoc = writeXml(lib, lx);
-        if (editTapes[nEdits][5] % 10 < 3) {
+        c.cls(lo.v1x ? "library-document:1.x" : "library-document:2.0");
+        if (editTapes[nEdits][5] % 10 < 5) {
             TapeSrc es(editTapes[nEdits]);
             cfg.extraDoc = applyEdit(cfg.extraDoc, es, c);
+            c.cls("library-document:edited");
         }
     }
+    cfg.libraryFiles = editTapes[nEdits][3] % 4 != 0;
     if (doc.size() > 65536) {
         doc.resize(65536);
     }
